@@ -139,7 +139,7 @@ def build_registry():
         ag, ta = dimer(bath=False)
         H = ag.get_Hamiltonian()
         H.set_rwa([0, 1])
-        return H.get_RWA_data() if hasattr(H, "get_RWA_data") else None
+        return H.get_RWA_skeleton()
 
     @r
     def redfield_tensor():
@@ -242,3 +242,20 @@ def build_registry():
         return d
 
     return reg
+
+
+# what each call returns: "energy" = energies expressed in the units current
+# at call time, "plain" = quantities that do not depend on the energy units
+# (rates and times in internal units, populations, spectra on their grid)
+RETURNS = dict(
+    molecule_create_get_set="energy", mode_create="energy",
+    molecule_hamiltonian="energy", aggregate_build="energy",
+    aggregate_build_mult2="energy", aggregate_coupling_get="energy",
+    aggregate_dipole_coupling="energy", hamiltonian_rwa="energy",
+    redfield_tensor="plain", redfield_tensor_td_secular="plain",
+    foerster_tensor="plain", redfield_rates="plain",
+    corfce_add_and_reorg="energy", corfce_measure_and_ft="plain",
+    spectral_density="energy", abs_spectrum="plain",
+    rdm_propagation="plain", thermal_states=("plain", "plain"),
+    axes_and_ft=("plain", "energy"), convert_function="plain",
+    eigenbasis_read="energy")
